@@ -199,8 +199,67 @@ pub fn check_layout(levels: &[Vec<FileDump>], rng: &mut Prng, drv: &mut Drv, rep
     }
 }
 
+/// `Version::pick_level_for_memtable_output` on a synthetic version against the model
+/// (`Rain/FlushLevel.lean`), for key ranges at, between and across file boundaries
+pub fn check_flush_level(levels: &[Vec<FileDump>], rng: &mut Prng, drv: &mut Drv, rep: &mut Report, origin: &str) {
+    static BASE: std::sync::OnceLock<DbOptions> = std::sync::OnceLock::new();
+    let max_file_size: u64 = *rng.pick(&[1u64, 20, 100, 400, 2_000, 2_000_000]);
+    let opts = DbOptions { max_file_size, ..BASE.get_or_init(DbOptions::with_memory_env).clone() };
+    let all: Vec<&FileDump> = levels.iter().flatten().collect();
+    let mut bound = |rng: &mut Prng| -> Vec<u8> {
+        if !all.is_empty() && rng.chance(2, 3) {
+            let f = all[rng.below(all.len() as u64) as usize];
+            let mut k = if rng.chance(1, 2) { f.smallest.0.clone() } else { f.largest.0.clone() };
+            match rng.below(4) {
+                0 => k.push(0),           // just after the boundary
+                1 => { k.pop(); }         // a prefix: just before
+                _ => {}
+            }
+            k
+        } else {
+            format!("k{:03}", rng.below(60)).into_bytes()
+        }
+    };
+    let mut queries: Vec<(Vec<u8>, Vec<u8>)> = vec![];
+    for _ in 0..6 {
+        let (a, b) = (bound(rng), bound(rng));
+        queries.push(if a <= b { (a, b) } else { (b, a) });
+    }
+    let ltok = crate::dbsim::levels_tok(levels, &BTreeMap::new());
+    let sizes: Vec<String> = levels.iter().flatten().map(|f| format!("{}={}", f.number, f.size)).collect();
+    let stok = if sizes.is_empty() { "_".to_string() } else { sizes.join(",") };
+    let case = format!("pick {origin} flush-level max={max_file_size} levels={ltok}");
+    let mut real = vec![];
+    for (lo, hi) in &queries {
+        match raindb::verif::pick_level(&opts, levels, lo, hi) {
+            Ok(l) => real.push(l.to_string()),
+            Err(e) => {
+                rep.case(&case, true);
+                rep.fail("oracle", "c09:flush-level-selection-panics", &format!("pick_level_for_memtable_output({}, {}) on a well-formed version: {e}", crate::drv::hex(lo), crate::drv::hex(hi)), &case);
+                return;
+            }
+        }
+    }
+    let q = queries.iter().map(|(a, b)| format!("{}/{}", crate::drv::hex(a), crate::drv::hex(b))).collect::<Vec<_>>().join(",");
+    let model = drv.ask(&format!("flush.level {max_file_size} {ltok} {stok} {q}"));
+    if model == "no-model" {
+        return;
+    }
+    rep.case(&case, true);
+    rep.model_requests += 1;
+    let want = real.join(" ");
+    if model != want {
+        rep.drift.push(format!("flush level differs: implementation [{want}] model [{model}] for ranges {q} :: {case}"));
+        rep.count("model_drift");
+        return;
+    }
+    for r in &real {
+        rep.count(&format!("pick.flush-level-{r}"));
+    }
+}
+
 pub fn rule() -> &'static str {
-    "compaction input selection (finalize_compaction_inputs = SetupOtherInputs, boundary files, level-0 overlap closure, expansion with its 25 x max_file_size limit) of the real code on synthetic versions (0-5 overlapping level-0 files, 1-3 deeper levels of 0-7 sorted files, adjacent files sharing a boundary user key, random sizes and max_file_size 1 .. 2 000 000) against the Lean model, seed chosen as the real callers choose it (level-0 closure of one file, one file, a run of neighbours); the selected inputs must satisfy the model's validInputs. Non-trivial = at least two files in the two levels; distinct by case text."
+    "compaction input selection (finalize_compaction_inputs = SetupOtherInputs, boundary files, level-0 overlap closure, expansion with its 25 x max_file_size limit) of the real code on synthetic versions (0-5 overlapping level-0 files, 1-3 deeper levels of 0-7 sorted files, adjacent files sharing a boundary user key, random sizes and max_file_size 1 .. 2 000 000) against the Lean model, seed chosen as the real callers choose it (level-0 closure of one file, one file, a run of neighbours); the selected inputs must satisfy the model's validInputs; on the same versions Version::pick_level_for_memtable_output for six key ranges at, just before / after and across file boundaries, with max_file_size 1 .. 2 000 000 (grandparent limit), against the model of Rain/FlushLevel.lean. Non-trivial = at least two files in the two levels; distinct by case text."
 }
 
 pub fn run(tier: &str, seed: u64, replay: Option<&str>, drv_path: &str) -> Report {
@@ -213,6 +272,7 @@ pub fn run(tier: &str, seed: u64, replay: Option<&str>, drv_path: &str) -> Repor
             let mut r = Prng::new(s);
             let levels = gen_layout(&mut r);
             check_layout(&levels, &mut r, &mut drv, &mut rep, &format!("gen={s}"));
+            check_flush_level(&levels, &mut r, &mut drv, &mut rep, &format!("gen={s}"));
         } else {
             rep.fail("oracle", "pick:bad-replay", "cannot parse replay case", line);
         }
@@ -224,6 +284,7 @@ pub fn run(tier: &str, seed: u64, replay: Option<&str>, drv_path: &str) -> Repor
         let mut r = Prng::new(s);
         let levels = gen_layout(&mut r);
         check_layout(&levels, &mut r, &mut drv, &mut rep, &format!("gen={s}"));
+        check_flush_level(&levels, &mut r, &mut drv, &mut rep, &format!("gen={s}"));
     }
     rep
 }
